@@ -959,7 +959,27 @@ class Run:
         if all(k is not None for k in node.keys):
             # small literal handed to a stub (e.g. context.update({KEY: value})): kept at the meta level
             return Conc(("dictlit", [(self.ev(k, fr), self.ev(v, fr), v) for k, v in zip(node.keys, node.values)]))
-        raise EngineError(f"dict display without declared type (line {node.lineno})")
+        # {**a, k: v, **b}: merged left to right (later entries win)
+        acc = None
+        for k, v in zip(node.keys, node.values):
+            if k is None:
+                d = self.ev(v, fr)
+                if isinstance(d, Conc) and d.obj == ("emptydict",):
+                    continue
+                if isinstance(d, Conc) and isinstance(d.obj, tuple) and d.obj[0] == "dictlit":
+                    for kk, vv, _n in d.obj[1]:
+                        acc = ops.setitem(self, acc if acc is not None else Conc(("emptydict",)), kk, vv, node)
+                    continue
+                if not (isinstance(d, Val) and isinstance(d.ty, TDict)):
+                    raise EngineError(f"dict display: ** of {d} (line {node.lineno})")
+                if acc is None:
+                    acc = Val(d.ty, d.t)
+                else:
+                    from .builtins import call_method
+                    _r, acc = call_method(self, acc, "update", [d], {}, node)
+            else:
+                acc = ops.setitem(self, acc if acc is not None else Conc(("emptydict",)), self.ev(k, fr), self.ev(v, fr), node)
+        return acc if acc is not None else Conc(("emptydict",))
 
     def ex_Yield(self, node, fr):
         """`yield` of a @contextmanager generator: the with-body runs here.  The contract's `yield_hook` states what
